@@ -92,6 +92,25 @@ func ruleC16(c *Ctx) {
 		c.undecided("FIELDMAP", "<1> test", parse.Pos(), "no test of the current line for the \"<1>\" tag found")
 		return
 	}
+	// the line whose tag is tested is the line of the listing as written: nothing is stripped or rewritten
+	// between the split into lines and the tag tests ("exactly as written" includes trailing blanks)
+	if lt := parseTerm(line); lt != nil {
+		rep := &lossyReport{}
+		judgeSpine(lt, func(x *Term) bool {
+			if (x.Op == "each" || x.Op == "index") && len(x.Args) > 0 && (x.Args[0].isCall("strings.Split") || x.Args[0].isCall("bytes.Split") || x.Args[0].isCall("strings.SplitAfter")) {
+				return true
+			}
+			return x.isCall("(*bufio.Scanner).Text") || x.isCall("(*bufio.Scanner).Bytes") || x.isCall("(*bufio.Reader).ReadString")
+		}, rep, map[*Term]bool{})
+		switch {
+		case len(rep.lossy) > 0:
+			c.bad("FIELDMAP", "the record line is the listing's line as written", parse.Pos(), "before the tags are looked at the line goes through "+strings.Join(rep.lossy, "; ")+": a field that ends (or begins) with those characters is stored without them")
+		case rep.sources > 0 && len(rep.unknown) == 0:
+			c.ok("FIELDMAP", "the record line is the listing's line as written", parse.Pos(), "the line tested for tags is an element of the listing split into lines; "+fmt.Sprint(len(rep.neutral))+" boundary operations that keep the payload")
+		default:
+			c.undecided("FIELDMAP", "the record line is the listing's line as written", parse.Pos(), "how the line is obtained from the listing was not followed: "+short(line))
+		}
+	}
 	payload := "slice(" + line + ", const[3], nil)"
 	// payloadState judges how a tag's payload is cut out of the line.
 	payloadState := func(t *Term, tag string) (int, string) {
